@@ -808,3 +808,12 @@ def gen_split(c, schema, kinds=("OBJECT", "INTERFACE", "INPUT", "ENUM", "UNION")
             if m >= 2 and c.maybe(p):
                 out[n] = c.int(1, m - 1)
     return out
+
+
+def add_schema_directive(schema):
+    """`schema @sd { ... }`: the pass-through directive also wraps the execution of every request (on_schema_execution /
+    on_schema_subscription of impl.CountingDirective)"""
+    d = schema.setdefault("directives", {}).setdefault("sd", {"args": {}, "locations": []})
+    if "SCHEMA" not in d["locations"]:
+        d["locations"] = list(d["locations"]) + ["SCHEMA"]
+    schema["schema_dirs"] = list(schema.get("schema_dirs") or []) + [{"name": "sd", "args": []}]
